@@ -18,3 +18,11 @@ package api //nolint:revive
 //@   assert-call paginate2: arg0 == caller_itemsPtr && itemsPerPage == ite(caller_itemsPerPageStr == "", 100, parseUintVal(caller_itemsPerPageStr, 10, 31)) && page == ite(caller_pageStr == "", 0, parseUintVal(caller_pageStr, 10, 31))
 //@   ensures [rejects-invalid] (result1 != nil) == !(ippOK() && pageOK())
 //@   ensures [page-count] result1 == nil ==> result0 == pgCount(rvLen(rvElem(rvOf(itemsPtr))), ite(itemsPerPageStr == "", 100, parseUintVal(itemsPerPageStr, 10, 31)))
+
+// C06: the segment-deletion endpoint instantiates the record path only with a name that is
+// a configured path or a valid path name (FindPathConf succeeded for exactly that name).
+
+//@ func (a *API) onRecordingDeleteSegment
+//@   property C06
+//@   safety -all
+//@   assert-call strings.ReplaceAll: old == "%path" ==> validName(new) || has(c.Paths, new)
